@@ -184,6 +184,10 @@ func (repo *StoragePeerRepository) Load(ctx context.Context) error {
 		return errors.Wrap(err, "Failed to read peers count")
 	}
 
+	if count < 0 || int(count) > buffer.Len() {
+		return errors.New("Invalid peers count")
+	}
+
 	// Reset
 	repo.list = make(PeerList, 0, count)
 
@@ -261,6 +265,10 @@ func readPeer(r io.Reader, version uint8) (Peer, error) {
 	var addressSize int32
 	if err := binary.Read(r, binary.LittleEndian, &addressSize); err != nil {
 		return result, err
+	}
+
+	if addressSize < 0 {
+		return result, errors.New("Invalid peer address size")
 	}
 
 	addressData := make([]byte, addressSize)
